@@ -170,11 +170,160 @@ class Instance(Host):
 
     __hash__ = object.__hash__
 
+    def __call__(self, *args, **kwargs):
+        it = object.__getattribute__(self, '_interp')
+        cls = object.__getattribute__(self, '_cls')
+        if it is None:
+            raise TypeError('instance is not callable')
+        try:
+            f = it._class_attr(cls.mod, None, self, cls, '__call__')
+        except AnalysisError:
+            raise InterpRaise('TypeError')
+        return f(*args, **kwargs)
+
     def __setattr__(self, k, v):
         self._d[k] = v
 
     def __repr__(self):
         return f'<{self._cls.node.name} instance>'
+
+
+class TupleInstance(Instance):
+    """Instance of a `typing.NamedTuple` class of the repository: the fields in declaration order, readable by name, by index
+    and by unpacking; methods the class defines (a callable record) are looked up in the class body as for any instance."""
+
+    def __init__(self, cls, interp, fields):
+        Instance.__init__(self, cls, interp)
+        object.__setattr__(self, '_fields_', tuple(fields))
+
+    def _tuple(self):
+        d = object.__getattribute__(self, '_d')
+        return tuple(d[f] for f in object.__getattribute__(self, '_fields_'))
+
+    def __getattr__(self, name):
+        if name == '_fields':
+            return object.__getattribute__(self, '_fields_')
+        if name == '_asdict':
+            return lambda: dict(zip(object.__getattribute__(self, '_fields_'), self._tuple()))
+        if name == '_replace':
+            def _replace(**kw):
+                new = TupleInstance(object.__getattribute__(self, '_cls'), object.__getattribute__(self, '_interp'), object.__getattribute__(self, '_fields_'))
+                new._d.update(object.__getattribute__(self, '_d'))
+                for k, v in kw.items():
+                    if k not in new._d:
+                        raise InterpRaise('ValueError')
+                    new._d[k] = v
+                return new
+            return _replace
+        return Instance.__getattr__(self, name)
+
+    def __iter__(self):
+        return iter(self._tuple())
+
+    def __len__(self):
+        return len(object.__getattribute__(self, '_fields_'))
+
+    def __getitem__(self, i):
+        return self._tuple()[i]
+
+    def __eq__(self, other):
+        if isinstance(other, TupleInstance):
+            return self._tuple() == other._tuple()
+        if isinstance(other, tuple):
+            return self._tuple() == other
+        return False
+
+    def __ne__(self, other):
+        return not self.__eq__(other)
+
+    def __hash__(self):
+        return hash(self._tuple())
+
+    def __setattr__(self, k, v):
+        raise InterpRaise('AttributeError')
+
+    def __repr__(self):
+        return f'{self._cls.node.name}{self._tuple()!r}'
+
+
+class _GenClose(BaseException):
+    """Raised inside the body of an abandoned lazy generator so that it unwinds."""
+
+
+class LazyGen:
+    """A generator function of the repository run *lazily*: the body executes in a thread of its own that is resumed for one
+    item at a time, so that whatever the consumer does between two items happens between the two `yield`s, as in the
+    interpreter proper (a buffer that is yielded and then modified is seen in the state it had when it was yielded).  Only one
+    of the two threads runs at any moment."""
+
+    _stack_set = False
+
+    def __init__(self, body):
+        import threading
+        self._body = body            # body(emit)
+        self._thread = None
+        self._done = False
+        self._closing = False
+        self._req = threading.Semaphore(0)
+        self._resp = threading.Semaphore(0)
+        self._item = None
+        self._exc = None
+
+    def __iter__(self):
+        return self
+
+    def _emit(self, value):
+        self._item = value
+        self._resp.release()
+        self._req.acquire()
+        if self._closing:
+            raise _GenClose()
+
+    def _run(self):
+        self._req.acquire()
+        try:
+            if not self._closing:
+                self._body(self._emit)
+        except _GenClose:
+            pass
+        except BaseException as e:      # noqa: BLE001 -- handed to the consumer
+            self._exc = e
+        self._done = True
+        self._resp.release()
+
+    def __next__(self):
+        import threading
+        if self._done:
+            raise StopIteration
+        if self._thread is None:
+            if not LazyGen._stack_set:
+                try:
+                    threading.stack_size(256 * 1024 * 1024)
+                except (ValueError, RuntimeError):
+                    pass
+                LazyGen._stack_set = True
+            self._thread = threading.Thread(target=self._run, daemon=True)
+            self._thread.start()
+        self._req.release()
+        self._resp.acquire()
+        if self._exc is not None:
+            e, self._exc = self._exc, None
+            raise e
+        if self._done:
+            raise StopIteration
+        return self._item
+
+    def close(self):
+        if self._thread is not None and not self._done and not self._closing:
+            self._closing = True
+            self._req.release()
+        self._done = True
+
+    def __del__(self):
+        try:
+            self.close()
+        except Exception:       # noqa: BLE001
+            pass
 
 
 class Env:
@@ -370,6 +519,62 @@ class _HostSortedList(Host):
     def __contains__(self, x):
         return x in self._xs
 
+    def __delitem__(self, i):
+        del self._xs[i]
+
+    def __bool__(self):
+        return bool(self._xs)
+
+    def __reversed__(self):
+        return iter(list(self._xs)[::-1])
+
+    def __eq__(self, other):
+        return list(self._xs) == list(other) if isinstance(other, (_HostSortedList, list, tuple)) else False
+
+    __hash__ = None
+
+    def __repr__(self):
+        return f'{type(self).__name__.replace("_Host", "")}({self._xs!r})'
+
+    def update(self, iterable):
+        for x in iterable:
+            self.add(x)
+
+    def clear(self):
+        self._xs.clear()
+
+    def copy(self):
+        new = type(self)()
+        new._xs = list(self._xs)
+        return new
+
+    def count(self, x):
+        return self._xs.count(x)
+
+    def index(self, x, *a):
+        try:
+            return self._xs.index(x, *a)
+        except ValueError:
+            raise InterpRaise('ValueError')
+
+    def bisect_left(self, x):
+        import bisect
+        return bisect.bisect_left(self._xs, x)
+
+    def bisect_right(self, x):
+        import bisect
+        return bisect.bisect_right(self._xs, x)
+
+    bisect = bisect_right
+
+    def islice(self, start=None, stop=None, reverse=False):
+        xs = self._xs[start:stop]
+        return iter(xs[::-1] if reverse else xs)
+
+    def irange(self, minimum=None, maximum=None, inclusive=(True, True), reverse=False):
+        xs = [x for x in self._xs if (minimum is None or (x >= minimum if inclusive[0] else x > minimum)) and (maximum is None or (x <= maximum if inclusive[1] else x < maximum))]
+        return iter(xs[::-1] if reverse else xs)
+
 
 class _HostSortedSet(_HostSortedList):
     """sortedcontainers.SortedSet: the same, without repeated elements."""
@@ -442,6 +647,7 @@ class Interp:
         self.repo = repo
         self.overrides = dict(overrides or {})
         self.eager_generators: set = set()
+        self.lazy_generators = True     # generator functions run item by item (LazyGen); False: run to completion first
         self.method_oracles: dict = {}
         self.allow_while = False
         self.real_super = False
@@ -510,6 +716,26 @@ class Interp:
             v = self._import_value(tmod, tname)
         elif name in _SAFE_BUILTINS:
             return _SAFE_BUILTINS[name]
+        elif name in ('getattr', 'hasattr', 'setattr'):
+            _missing = object()
+
+            def _getattr(obj, attr, default=_missing):
+                try:
+                    return self.getattr(mod, None, obj, attr)
+                except (AnalysisError, AttributeError):
+                    if default is _missing:
+                        raise InterpRaise('AttributeError')
+                    return default
+
+            def _hasattr(obj, attr):
+                return _getattr(obj, attr, _missing) is not _missing
+
+            def _setattr(obj, attr, value):
+                if isinstance(obj, Instance):
+                    obj._d[attr] = value
+                else:
+                    setattr(obj, attr, value)
+            return {'getattr': _getattr, 'hasattr': _hasattr, 'setattr': _setattr}[name]
         elif name == '__name__':
             return mod.name
         else:
@@ -568,7 +794,7 @@ class Interp:
             self._bind(fn.mod, node.args, args, kwargs, env, fn.closure)
             if isinstance(node, ast.Lambda):
                 return self.eval(fn.mod, node.body, env)
-            if f'{fn.mod.name}.{fn.__name__}' in self.eager_generators or self._is_generator(node):
+            if f'{fn.mod.name}.{fn.__name__}' in self.eager_generators or (self._is_generator(node) and not self.lazy_generators):
                 # vetted generator run to completion: the caller receives every yielded object
                 # afterwards, so a buffer shared between yields shows its final contents only
                 env.vars['__yielded__'] = out = []
@@ -577,6 +803,15 @@ class Interp:
                 except _Return:
                     pass
                 return iter(out)
+            if self._is_generator(node):
+                # lazily, item by item (see LazyGen)
+                def body(emit, env=env, fn=fn, node=node):
+                    env.vars['__emit__'] = emit
+                    try:
+                        self.exec_block(fn.mod, node.body, env)
+                    except _Return:
+                        pass
+                return LazyGen(body)
             try:
                 self.exec_block(fn.mod, node.body, env)
             except _Return as r:
@@ -902,12 +1137,21 @@ class Interp:
                     d[self.eval(mod, k, env)] = self.eval(mod, v, env)
             return d
         if isinstance(e, ast.YieldFrom):
+            emit, lazy = env.lookup('__emit__')
+            if lazy:
+                for v_ in self.eval(mod, e.value, env):
+                    emit(v_)
+                return None
             out, found = env.lookup('__yielded__')
             if not found:
                 self.unsupported(mod, e, 'yield from outside a vetted generator')
             out.extend(list(self.eval(mod, e.value, env)))
             return None
         if isinstance(e, ast.Yield):
+            emit, lazy = env.lookup('__emit__')
+            if lazy:
+                emit(self.eval(mod, e.value, env) if e.value is not None else None)
+                return None
             out, found = env.lookup('__yielded__')
             if not found:
                 self.unsupported(mod, e, 'yield outside a vetted generator')
@@ -1067,6 +1311,8 @@ class Interp:
                 return obj.node.name
             q = f'{obj.node.name}.{attr}'
             if q in obj.mod.functions:
+                if any(norm(d) == 'classmethod' for d in obj.mod.functions[q].decorator_list):
+                    return RepoFunc(self, obj.mod, obj.mod.functions[q], bound_self=obj)
                 return RepoFunc(self, obj.mod, obj.mod.functions[q])
             for st in obj.node.body:
                 if isinstance(st, (ast.Assign, ast.AnnAssign)):
@@ -1077,6 +1323,8 @@ class Interp:
         if isinstance(obj, Instance):
             if attr in obj._d:
                 return obj._d[attr]
+            if isinstance(obj, TupleInstance) and attr in ('_fields', '_asdict', '_replace'):
+                return getattr(obj, attr)
             return self._class_attr(mod, node, obj, obj._cls, attr)
         if obj in (int, str, bytes, dict, list, tuple, set, bytearray, float) or (isinstance(obj, type) and getattr(obj, '__module__', '') in ('itertools', 'collections', 'functools', 'operator')):
             return getattr(obj, attr)
@@ -1106,6 +1354,8 @@ class Interp:
                 return RepoFunc(self, cls.mod, fn)(inst)
             if 'staticmethod' in decos:
                 return RepoFunc(self, cls.mod, fn)
+            if 'classmethod' in decos:
+                return RepoFunc(self, cls.mod, fn, bound_self=(inst._cls if isinstance(inst, Instance) else cls))
             return RepoFunc(self, cls.mod, fn, bound_self=inst)
         for st in cls.node.body:
             if isinstance(st, (ast.Assign, ast.AnnAssign)):
@@ -1128,6 +1378,30 @@ class Interp:
         )
 
     def instantiate(self, cls: 'RepoClass', args=(), kwargs=None):
+        if any(norm(b).split('.')[-1] == 'NamedTuple' for b in cls.node.bases):
+            # synthesised constructor of a typing.NamedTuple: annotated class-level fields in order, defaults from the class body
+            fields = [st for st in cls.node.body if isinstance(st, ast.AnnAssign) and isinstance(st.target, ast.Name)]
+            inst = TupleInstance(cls, self, [st.target.id for st in fields])
+            args = list(args)
+            kwargs = dict(kwargs or {})
+            if len(args) > len(fields):
+                raise InterpRaise('TypeError')
+            for i, st in enumerate(fields):
+                name = st.target.id
+                if i < len(args):
+                    if name in kwargs:
+                        raise InterpRaise('TypeError')
+                    v = args[i]
+                elif name in kwargs:
+                    v = kwargs.pop(name)
+                elif st.value is not None:
+                    v = self.eval(cls.mod, st.value, Env())
+                else:
+                    raise InterpRaise('TypeError')
+                inst._d[name] = v
+            if kwargs:
+                raise InterpRaise('TypeError')
+            return inst
         inst = Instance(cls, self)
         if f'{cls.node.name}.__init__' in cls.mod.functions:
             RepoFunc(self, cls.mod, cls.mod.functions[f'{cls.node.name}.__init__'], bound_self=inst)(*args, **(kwargs or {}))
